@@ -5,7 +5,7 @@ import json, os, subprocess, sys, hashlib, time
 
 tier, t0, t1 = sys.argv[1], float(sys.argv[2]), float(sys.argv[3])
 cfgs = sys.argv[4:]
-V = "/verif"
+V = os.environ.get("VERIF_ROOT", "/verif")
 
 def load(cfg):
     d = {}
